@@ -309,7 +309,40 @@ def rule_ring(ctx):
               "__getitem__ must not return a session that is no longer valid/resumable", getit.loc())
 
 
+def rule_clock(ctx):
+    """CLOCK: the ring of (id, timestamp) pairs is ordered by time only if each timestamp is read while
+    the lock that orders the insertions is held: every clock read in SessionCache happens in a lock
+    region (or in a private helper whose every call site is in one)."""
+    R = "C18.CLOCK"
+    cls = ctx.index.cls("sessioncache:SessionCache")
+    methods = [m for c in [cls] + cls.descendants() for m in c.methods.values()]
+    regions = {m.qname: Regions(m.node, "lock") for m in methods}
+
+    def held_helper(m, depth=0):
+        if not m.name.startswith("_") or m.name.startswith("__") or depth > 3:
+            return False
+        sites = [(c, n) for c in methods for n in ast.walk(c.node)
+                 if isinstance(n, ast.Call) and isinstance(n.func, ast.Attribute) and n.func.attr == m.name
+                 and isinstance(n.func.value, ast.Name) and n.func.value.id == "self"]
+        return bool(sites) and all(regions[c.qname].region_of(n) is not None or held_helper(c, depth + 1)
+                                   for c, n in sites)
+    reads = 0
+    for m in methods:
+        if m.name == "__init__":
+            continue
+        for n in ast.walk(m.node):
+            if isinstance(n, ast.Call) and (attr_chain(n.func) or "").split(".")[0] in ("time", "datetime"):
+                reads += 1
+                ok = regions[m.qname].region_of(n) is not None or held_helper(m)
+                ctx.check(R, ok, m.qname, "`%s` read under self.lock" % norm(n),
+                          "the clock is read outside the region holding self.lock: two threads can insert in one "
+                          "order and stamp in the other, so the ring is no longer ordered by time and _purge (which "
+                          "stops at the first unexpired entry) keeps expired sessions resumable", m.loc(n))
+    ctx.require(reads >= 2, "C18.CLOCK: %d clock reads found in SessionCache, floor 2" % reads)
+
+
 RULES = [
+    ("C18.CLOCK", "quick", rule_clock),
     ("C18.LOCKSET", "quick", rule_lockset),
     ("C18.RING", "quick", rule_ring),
 ]
